@@ -27,6 +27,35 @@ class Color(enum.Enum):
     BLACK = "black"
 
 
+class SColor(enum.StrEnum):
+    """members are str instances; values differ from names; UP/DOWN are crossed (value = the other member's name)"""
+
+    PIPE = "pipe"
+    HTTP = "http-v"
+    UP = "DOWN"
+    DOWN = "UP"
+
+
+class MColor(str, enum.Enum):
+    """the pre-3.11 spelling of a str-mixin enum, crossed as well"""
+
+    A = "b"
+    B = "A"
+    LEFT = "RIGHT"
+    RIGHT = "LEFT"
+
+
+class IColor(enum.IntEnum):
+    """members are int instances"""
+
+    LOW = 1
+    HIGH = 10
+    ZERO = 0
+
+
+MIXIN_BY_CLASS = {"senum": {"value_ne_name": [SColor.PIPE, SColor.HTTP], "value_is_other_name": [SColor.UP, SColor.DOWN]},
+                  "menum": {"value_ne_name": [MColor.A], "value_is_other_name": [MColor.LEFT, MColor.RIGHT, MColor.B]},
+                  "ienum": {"int_valued": [IColor.LOW, IColor.HIGH, IColor.ZERO]}}
 ENUM_BY_CLASS = {"value_ne_name": [Color.RED, Color.BLACK], "value_is_other_name": [Color.GREEN], "int_valued": [Color.BLUE]}
 
 INT_RANGE = {"int": (-2**63, 2**63 - 1), "i8": (-128, 127), "i16": (-2**15, 2**15 - 1), "i32": (-2**31, 2**31 - 1),
@@ -37,6 +66,7 @@ DEC_T = pa.decimal128(10, 2)
 
 LEAF_ANN: dict[str, object] = {
     "int": int, "float": float, "str": str, "bytes": bytes, "bool": bool, "enum": Color,
+    "senum": SColor, "menum": MColor, "ienum": IColor,
     **{k: Annotated[int, ArrowType(v)] for k, v in INT_ARROW.items()},
     "f32": Annotated[float, ArrowType(pa.float32())],
     "dec": Annotated[decimal.Decimal, ArrowType(DEC_T)],
@@ -226,6 +256,8 @@ def leaf_values(leaf: str, k: str, rng, n: int) -> list:
         out = {"true": [True], "false": [False]}[k]
     elif leaf == "enum":
         out = list(ENUM_BY_CLASS[k])
+    elif leaf in MIXIN_BY_CLASS:
+        out = list(MIXIN_BY_CLASS[leaf][k])
     elif leaf == "dec":
         D = decimal.Decimal
         out = {"zero": [D("0.00"), D("0")], "max_digits": [D("99999999.99"), D("-99999999.99")], "neg": [D("-1.50"), D("-0.01")],
